@@ -56,6 +56,28 @@ pub fn run(tier: &str) -> Result<Report, String> {
             slices.push(json!({"network": b.name, "extended_max_nodes": m_ext, "formulae": fs.len(), "label_families": fams}));
         }
     }
+    // graphs with a different number of spare variables per network variable
+    {
+        let mut n_non = 0u64;
+        for b in constrained.iter().filter(|b| b.n >= 2) {
+            let ctx = NetCtx::new(b.clone(), Labels::default(), "none");
+            let mut alpha = Alphabet::plain(ctx.nprops(), 2);
+            alpha.bi = crate::formulas::ALL_BI.to_vec();
+            let mut fs = Gen::new(alpha).closed_up_to(if tier == "quick" { 3 } else { 4 });
+            fs.extend(crate::formulas::templates(&ctx.user, false, 2));
+            let texts: Vec<String> = fs.iter().map(|f| f.show(&ctx.user)).collect();
+            let depth = |t: &str| crate::refparser::parse_str(t, false).map(|x| x.qdepth()).unwrap_or(99);
+            n_non += texts.len() as u64 * 3;
+            for w in nonuniform_check(b, &texts, &depth) {
+                if w.starts_with("harness:") {
+                    return Err(w);
+                }
+                rep.violations.push(crate::report::Violation { case: json!({"kind": "none"}), what: format!("on {}: {w}", b.name), size: 30 });
+            }
+        }
+        rep.evaluations += n_non * 2;
+        slices.push(json!({"part": "graphs with per-variable spare counts [3,1,2] / [1,3,1] / [2,1,4]", "formula_graph_pairs": n_non}));
+    }
     // graphs whose unit set is additionally restricted to every second valid colour
     // (SymbolicAsyncGraph::restrict): results must stay inside the restricted universe as well
     let mut n_restricted = 0;
@@ -88,6 +110,6 @@ pub fn run(tier: &str) -> Result<Report, String> {
     }
     slices.push(json!({"part": "constrained networks of the all-2-variable family", "networks": n2, "max_nodes": 3, "formulae": fs2.len()}));
     rep.set("slices", json!(slices));
-    rep.rule = "networks of the core family and of the de-duplicated all-2-variable family whose unit set is a strict subset of all parameter valuations x all closed plain formulae (all 9 binary operators) up to plain_max_nodes, the template families (benchmark formulae, quantifier nests, sub-formulae duplicated up to renaming at equal / different quantifier depths in both orders) and extended formulae up to extended_max_nodes plus the extended templates and the pair family of the collision alphabet: every raw result must be a subset of the unit set and independent of auxiliary variables, every sanitised result must not have more elements/colours than the unit set; distinct_nontrivial counts distinct non-trivial verdict tables of the explored formulae".into();
+    rep.rule = "networks of the core family and of the de-duplicated all-2-variable family whose unit set is a strict subset of all parameter valuations x all closed plain formulae (all 9 binary operators) up to plain_max_nodes, the template families (benchmark formulae, quantifier nests, sub-formulae duplicated up to renaming at equal / different quantifier depths in both orders) and extended formulae up to extended_max_nodes plus the extended templates and the pair family of the collision alphabet: every raw result must be a subset of the unit set and independent of auxiliary variables, every sanitised result must not have more elements/colours than the unit set; also: graphs whose context gives different numbers of spare variables to different network variables (raw result independent of spare variables and equal to the uniform graph's); distinct_nontrivial counts distinct non-trivial verdict tables of the explored formulae".into();
     Ok(rep)
 }
